@@ -22,6 +22,9 @@ Plain(prog) == Case(prog, <<>>, -1, 0)
 IOCases(z) ==
      { Case(<<p>>, i, b, 0) : p \in IOProgs, i \in IOInputs, b \in {-1} \cup 0..7 }
 \cup { Case(<<p>>, i, -1, f) : p \in IOProgs, i \in IOInputs \cup IOInputsU, f \in 0..4 }
+\cup { Case(<<p>>, i, -1, 0) : p \in IOProgs, i \in IOInputsB }
+\cup { Case(p, <<"l1\n", "l2\n", "l3">>, b, 0) : p \in IOExprProgs, b \in {-1} \cup 0..9 }
+\cup { Case(p, <<"l1\n", "l2\n", "l3">>, -1, f) : p \in IOExprProgs, f \in 1..3 }
 \cup { Case(<< <<Put(N(0), "i"), SWhile(0, Lt(Var("i"), N(3)), <<SInc(0, Var("i"), 1), SListen(0, Var("x")), Say(Var("x"))>>), SayS("end")>> >>, i, b, f) :
          i \in IOInputs, b \in {-1, 0, 1, 2, 3, 5, 8}, f \in 0..4 }
 
